@@ -14,6 +14,7 @@
 import Logg.Lemmas.EncoderClean
 import Logg.Lemmas.JsonRoundTrip
 import Logg.Lemmas.EncoderJson
+import Logg.Gen.Facts
 
 namespace Logg.Props.C04
 open Logg Logg.Lemmas
@@ -115,6 +116,19 @@ theorem json_msg_member (isPrint : Nat → Bool) (levelName : Bytes) (depth : Na
   refine ⟨?_, jsonUnquote_jsonQuote _ hu⟩
   simp only [jsonFields, headMems, List.mem_append, List.mem_cons, hq]
   left; left; right; right; right; left; trivial
+
+set_option maxRecDepth 8000 in
+/-- The escaping of the model is the escaping of the code (regenerated): the table of ASCII bytes that
+    are copied as they are is `safeSet`, byte for byte; the bytes with a short escape are the cases of
+    the byte switch; the only code points the function compares against are U+FFFD (an undecodable
+    byte), U+2028 and U+2029 - every other code point is copied; and the literal pieces it writes are
+    `u00`, `\ufffd` and `\u202`. -/
+theorem json_escape_follows_the_code :
+    (∀ n, n < 128 → jsonSafe (UInt8.ofNat n) = Gen.jsonSafeSet.getD n false) ∧ Gen.jsonSafeSet.length = 128 ∧
+    Gen.jsonEscRunes = [runeError, 0x2028, 0x2029] ∧
+    Gen.jsonEscCases = ["92", "34", "10", "13", "9", "default"] ∧
+    Gen.jsonEscLits = ["u00", "\\ufffd", "\\u202"] := by
+  refine ⟨by decide +kernel, by decide, by decide, by decide, by decide⟩
 
 -- non-vacuity: the reader on a line with a forged member inside a string, a nested object and an array
 example : jsonMembers [123, 34, 97, 34, 58, 34, 120, 92, 34, 44, 34, 98, 34, 58, 49, 34, 44, 34, 103, 34, 58, 123, 34, 107, 34, 58, 91, 49, 44, 50, 93, 125, 125] =
